@@ -192,6 +192,21 @@ Theorem C06_unused_star_args_refuted_before_fix :
 Proof. vm_compute. repeat split. Qed.
 Print Assumptions C06_unused_star_args_refuted_before_fix.
 
+(* known finding C06-star-union-different-lengths: `xs = (1, "a") if c else (2,)`; `f( *xs)` for
+   def f(a: int, b: str = "").  preprocess_args merges tuples of different lengths into ONE star
+   argument of unknown length whose element type is the union of all elements; the merged call is
+   diagnosed although each alternative on its own is accepted *)
+Example C06_star_union_different_lengths_witness :
+  let s := mk_csig [mk_cparam (mkParam 0%N POK false) (AnnE (TTy (SU [A_int]))) None;
+                    mk_cparam (mkParam 1%N POK true) (AnnE (TTy (SU [A_str]))) (Some (AV (obj_val O_litEmpty)))]
+                   [] (RTy (SU [A_int])) in
+  let call pos star := check_call atom_ops rrs_limit (SU [A_litNone]) s (mk_ccall pos star [] None) in
+  fst (call [AV (obj_val O_lit1); AV (obj_val O_lita)] None) = [] /\
+  fst (call [AV (obj_val O_lit2)] None) = [] /\
+  fst (call [] (Some (AV (SU [A_lit1; A_lita; A_lit2])))) = [IncompatibleArgument 0%N; IncompatibleArgument 1%N].
+Proof. vm_compute. repeat split. Qed.
+Print Assumptions C06_star_union_different_lengths_witness.
+
 (* non-trivial inputs:  def f(p0: T, /, p1: Callable[[T], U], *va: T, k: int = 0) -> T   (T, U unbounded) *)
 Example C06_examples :
   let P n k d := mkParam n k d in
